@@ -1,4 +1,5 @@
 import MpVerif.C20.ModelGraph
+import MpVerif.C20.LemmasGraph
 import MpVerif.C20.Lemmas
 import MpVerif.C20.LemmasExport
 /-!
@@ -72,7 +73,7 @@ example : parse (writeText (.obj (.cons cl!"VAR_index" (.num cl!"3")
     record `d` (NL model sizes; what the ModelAPI received). -/
 structure WellFormed (g : List Rec) (d : Delivered) : Prop where
   /-- every variable of the NL model appears (flagged as coming from NL) -/
-  nl_vars : ∀ i, i < d.nlVars → Rec.var i true ∈ g
+  nl_vars : ∀ i, i < d.nlVars → ∃ info, Rec.var i true info ∈ g
   /-- every (selected) objective of the NL model appears -/
   nl_objs : ∀ i, i < d.nlObjs → Rec.nlObj i ∈ g
   /-- every algebraic constraint of the NL model appears -/
@@ -80,12 +81,20 @@ structure WellFormed (g : List Rec) (d : Delivered) : Prop where
   /-- every logical constraint of the NL model appears (indexed after the algebraic ones) -/
   nl_log : ∀ i, d.nlAlgCons ≤ i → i < d.nlAlgCons + d.nlLogCons → Rec.nlCon i true ∈ g
   /-- every delivered variable appears -/
-  dl_vars : ∀ i, i < d.nVars → ∃ b, Rec.var i b ∈ g
+  dl_vars : ∀ i, i < d.nVars → ∃ b info, Rec.var i b info ∈ g
   /-- every delivered objective appears -/
-  dl_objs : ∀ i, i < d.nObjs → Rec.obj i ∈ g
+  dl_objs : ∀ i, i < d.nObjs → ∃ info, Rec.obj i info ∈ g
+  /-- the **last** record of each delivered variable describes the variable the ModelAPI received
+      (type; which bounds are infinite) -/
+  dl_var_last : ∀ i v, d.vars[i]? = some v →
+      ∃ pre post b, g = pre ++ Rec.var i b v :: post ∧ ∀ b' v', Rec.var i b' v' ∉ post
+  /-- the **last** record of each delivered objective describes the objective the ModelAPI received
+      (sense, variables of the linear terms, variable pairs of the quadratic terms, numbers of terms) -/
+  dl_obj_last : ∀ i o, d.objs[i]? = some o →
+      ∃ pre post, g = pre ++ Rec.obj i o :: post ∧ ∀ o', Rec.obj i o' ∉ post
   /-- variable/objective/NL records mention only items that exist -/
-  vars_exist : ∀ i b, Rec.var i b ∈ g → i < d.nVars ∧ (b = true ↔ i < d.nlVars)
-  objs_exist : ∀ i, Rec.obj i ∈ g → i < d.nObjs
+  vars_exist : ∀ i b info, Rec.var i b info ∈ g → i < d.nVars ∧ (b = true ↔ i < d.nlVars)
+  objs_exist : ∀ i info, Rec.obj i info ∈ g → i < d.nObjs
   nlobjs_exist : ∀ i, Rec.nlObj i ∈ g → i < d.nlObjs
   nlcons_exist : ∀ i l, Rec.nlCon i l ∈ g → i < d.nlAlgCons + d.nlLogCons ∧ (l = true ↔ d.nlAlgCons ≤ i)
   /-- stored constraints of a type are numbered 0..n-1 without repetition -/
@@ -107,8 +116,9 @@ structure WellFormed (g : List Rec) (d : Delivered) : Prop where
 theorem C20_validator_sound (g : List Rec) (d : Delivered) (h : checkGraph g d = true) : WellFormed g d := by
   unfold checkGraph at h
   simp only [Bool.and_eq_true, List.all_eq_true, List.mem_range, List.contains_iff_mem, beq_iff_eq] at h
-  obtain ⟨⟨⟨⟨⟨⟨⟨h1, h2⟩, h3⟩, h4⟩, h5⟩, h6⟩, h7⟩, h8⟩ := h
-  refine ⟨h1, h2, ?_, ?_, ?_, h5, ?_, ?_, ?_, ?_, ?_, ?_, ?_, ?_, h7, h8⟩
+  obtain ⟨⟨⟨⟨⟨⟨⟨⟨⟨h1, h2⟩, h3⟩, h4⟩, h5⟩, h6⟩, hv⟩, ho⟩, h7⟩, h8⟩ := h
+  refine ⟨fun i hi => hasVar_spec g i true (h1 i hi), h2, ?_, ?_, ?_, fun i hi => hasObj_spec g i (h5 i hi),
+    ?_, ?_, ?_, ?_, ?_, ?_, ?_, ?_, ?_, ?_, h7, h8⟩
   · intro i hi
     have := h3 i (by omega)
     simpa [show ¬ d.nlAlgCons ≤ i by omega] using this
@@ -116,13 +126,21 @@ theorem C20_validator_sound (g : List Rec) (d : Delivered) (h : checkGraph g d =
     have := h3 i hi2
     simpa [hi1] using this
   · intro i hi
-    exact ⟨_, h4 i hi⟩
-  · intro i b hm
+    exact ⟨_, hasVar_spec g i _ (h4 i hi)⟩
+  · intro i v hi
+    have := allIdx_spec _ d.vars 0 hv i v hi
+    simp only [Nat.zero_add, beq_iff_eq] at this
+    exact lastVar_spec g i v this
+  · intro i o hi
+    have := allIdx_spec _ d.objs 0 ho i o hi
+    simp only [Nat.zero_add, beq_iff_eq] at this
+    exact lastObj_spec g i o this
+  · intro i b info hm
     have := h6 _ hm
     simp only [recOk, Bool.and_eq_true, decide_eq_true_eq, beq_iff_eq] at this
     refine ⟨this.1, ?_⟩
     rw [this.2]; simp
-  · intro i hm
+  · intro i info hm
     have := h6 _ hm
     simpa [recOk] using this
   · intro i hm
@@ -223,15 +241,18 @@ theorem C20_status_trichotomy (g : List Rec) (d : Delivered) (h : WellFormed g d
 
 /-- non-vacuity: a tiny export that passes, and the same export with a dangling link index that fails -/
 def exG (last : Nat) : List Rec :=
-  [.comment, .var 0 true, .nlObj 0, .obj 0, .nlCon 0 false, .conNew cl!"_linrange" 0,
+  [.comment, .var 0 true ⟨0, true, true⟩, .nlObj 0, .obj 0 ⟨0, [], [0], [0]⟩, .nlCon 0 false, .conNew cl!"_linrange" 0,
    .link cl!"CopyLink" 0 [⟨cl!"src_vars()", 0, 0⟩] [⟨cl!"dest_vars()", 0, 0⟩],
    .link cl!"CopyLink" 1 [⟨cl!"src_cons()", 0, 0⟩] [⟨cl!"_linrange", 0, last⟩],
-   .var 0 true, .obj 0, .conStatus cl!"_linrange" 0 cl!"c" false false true,
+   .var 0 true ⟨0, false, true⟩, .obj 0 ⟨0, [0], [], []⟩, .conStatus cl!"_linrange" 0 cl!"c" false false true,
    .conGroup cl!"_linrange" 3,
    .link cl!"CopyLink" 2 [⟨cl!"_linrange", 0, 0⟩] [⟨cl!"dest_cons(3)", 0, 0⟩]]
-def exD : Delivered := ⟨1, 1, 1, 0, 1, 1, [⟨cl!"_linrange", 3, cl!"c"⟩]⟩
+def exD : Delivered := ⟨1, 1, 1, 0, [⟨0, false, true⟩], [⟨0, [0], [], []⟩], [⟨cl!"_linrange", 3, cl!"c"⟩]⟩
+/-- the delivered objective is linear in variable 0, but the *last* objective record still shows the quadratic one (seeded change C20-4) -/
+def exGstaleObj : List Rec := (exG 0).erase (.obj 0 ⟨0, [0], [], []⟩)
 example : checkGraph (exG 0) exD = true := by decide
 example : checkGraph (exG 1) exD = false := by decide
+example : checkGraph exGstaleObj exD = false := by decide
 example : checkGraph ((exG 0).erase (.conStatus cl!"_linrange" 0 cl!"c" false false true)) exD = false := by decide
 
 /-! ## (b) the lazy link-export protocol -/
